@@ -88,6 +88,18 @@ class Run:
             self.violations[signature] = (witness, text)
         return True
 
+    def export(self):
+        """what a worker-side collector hands back to the main Run"""
+        return (self.violations, self.known_hit)
+
+    def merge(self, exported):
+        vios, hits = exported
+        for sig, (wit, text) in vios.items():
+            if sig not in self.violations:
+                self.violations[sig] = (wit, text)
+        for sig, cnt in hits.items():
+            self.known_hit[sig] = self.known_hit.get(sig, 0) + cnt
+
     # ---- finish ---------------------------------------------------------
     def finish(self):
         wall = time.time() - self.t0
